@@ -17,7 +17,7 @@ func init() {
 	register("c20", "byte pools: for a family of (min,max) configurations every request size 0..max+2 (Get: length exactly as requested, capacity, level) and "+
 		"every foreign-buffer capacity 0..max+2 (Put: which level receives it, then a Get from that level still has the requested length) – exhaustive, "+
 		"replayed on the Lean model of findPool/findPutPool; aliasing: sequences and concurrent mixes of Zip / Unzip / Encode whose results are held and "+
-		"re-checked after later calls; pooled Reset-able argument objects under concurrent requests (see c04); "+
+		"re-checked after later calls; pooled Reset-able argument and reply objects of a real server under concurrent pipelined two-way / one-way / failing requests (ownership checked inside the handler and on the responses); "+
 		"non-trivial = size or capacity not a level boundary minus/plus zero of a trivial config; distinct = distinct input line",
 		runC20)
 }
@@ -48,6 +48,24 @@ func runC20(o *Out, r *rand.Rand) {
 	runtime.GOMAXPROCS(oldProcs)
 	runtime.UnlockOSThread()
 	c20Alias(o, r)
+	// pooled Reset-able argument/reply objects of the server: no object is handed to two requests
+	// in flight (two-way, one-way and failing requests all take and return pooled objects)
+	rounds := 3
+	if thorough() {
+		rounds = 12
+	}
+	id := 900000
+	for _, so := range []srvOpts{{}, {pool: true}} {
+		rig, err := newSrvRig(so)
+		if err != nil {
+			o.Violate("srv.rig", "cannot start the server: "+err.Error(), nil)
+			return
+		}
+		for i := 0; i < rounds; i++ {
+			srvPooled(o, rig, r, &id, "c20")
+		}
+		rig.close()
+	}
 }
 
 func c20Pool(o *Out, min, max int) {
